@@ -27,7 +27,19 @@ func (m *FaultMeta) GetMaybeFilesForQuery(ctx context.Context, q *bs.QueryPrefil
 	if m.iterFaults && m.s.call("iter", "", 0) {
 		return func(yield func(bs.MaybeFile, error) bool) { yield(bs.MaybeFile{}, errInjected) }
 	}
-	return m.MetaStore.GetMaybeFilesForQuery(ctx, q)
+	inner := m.MetaStore.GetMaybeFilesForQuery(ctx, q)
+	if !m.yieldGate {
+		return inner
+	}
+	// every hand-over of a file to the consumer is a (gateable, logged) step of its own
+	return func(yield func(bs.MaybeFile, error) bool) {
+		for f, err := range inner {
+			m.s.call("yield", string(f.PointerBytes), 0)
+			if !yield(f, err) {
+				return
+			}
+		}
+	}
 }
 
 func opsOf(log []StoreCall, keep map[string]bool) []string {
